@@ -1083,7 +1083,7 @@ Fixpoint spec_accepts (states : list bspec) (ops : list buf_op) (tr : list (bobs
            | states' => spec_accepts states' ops' tr'
            end
          end
-    else match tr with [] => true | _ => false end
+    else true
   end.
 
 Section BufRun.
